@@ -159,10 +159,8 @@ def stepThread (hash : Nat → List Nat) (s : St) (t : Nat) (th0 : Thread) : Opt
   | .rFilter p =>
     match th.prog.key with
     | some k =>
-      if hasF hash s p k then go .rPass s
-      else match th.prog with
-        | .del _ => go (.done .ok) s         -- DeleteBlock returns nil without deleting
-        | _ => go (.done .absent) s
+      -- conclusive: "absent" (DeleteBlock then returns nil without deleting; shown as `ok` by the driver)
+      if hasF hash s p k then go .rPass s else go (.done .absent) s
     | none => go .rPass s
   | .rPass =>
     match th.prog with
